@@ -43,6 +43,15 @@ class Lin:
                     return x[2][0]
                 if self.sum_transparent and nm in SUMS and len(x[2]) >= 1:
                     return x[2][0]
+            if h == "call" and any(a[0] == "star" and a[1][0] in ("tuple", "list") and not any(y[0] == "star" for y in a[1][1]) for a in x[2]):
+                # f(*(a, b)) is f(a, b)
+                out = []
+                for a in x[2]:
+                    if a[0] == "star" and a[1][0] in ("tuple", "list") and not any(y[0] == "star" for y in a[1][1]):
+                        out.extend(a[1][1])
+                    else:
+                        out.append(a)
+                return ("call", x[1], tuple(out), x[3])
             if h == "call" and x[3] and x[1][0] == "name" and x[1][1].startswith("genjax.") and self.ev is not None:
                 # keyword arguments of a call to a repo-local function/dataclass that continue the positional prefix are positional
                 # arguments (signature order): f(a, b) and f(x=a, y=b) are one term.  Applied to both sides of every comparison.
